@@ -100,6 +100,12 @@ def run(R):
             w = rig.World(lv, db)
             for api, order in (("multiwalk", orders[0]), ("multiwalk", orders[0]), ("multiwalk", orders[-1]), ("pymultiwalk", orders[0]), ("multiwalk", orders[0])):
                 run_one(R, lv, order, db, api, "reuse", w=w)
+            # abandoned walks (consumer stops early / transport times out mid-walk),
+            # each followed by a complete walk that must be exact
+            for how, n, api in (("stop", 1, "multiwalk"), ("timeout", 1, "multiwalk"), ("stop", 2, "pymultiwalk"), ("timeout", 2, "multiwalk")):
+                wc.abort_walk(w, orders[0], api, None, how, n)
+                R.mon["walks_abandoned_midway"] += 1
+                run_one(R, lv, orders[0], db, api, "reuse", w=w)
         if len(roots) == 1:
             run_one(R, levels[i % len(levels)], roots, db, "walk", "gen")
             run_one(R, levels[(i + 2) % len(levels)], roots, db, "pywalk", "gen")
